@@ -23,4 +23,4 @@ with tempfile.TemporaryDirectory() as d:
     if r.returncode != 0:
         sys.stdout.write(r.stdout.decode()[-1500:])
         sys.exit(1)
-print("DROP: stubs/sys/socket.h, sys/un.h restate iovec/msghdr/cmsghdr/sockaddr_un/CMSG_* of this platform; layout checked natively by gen.py (static_assert against the system headers)")
+print("DROP: stubs/sys/socket.h, sys/un.h restate iovec/msghdr/cmsghdr/sockaddr_un/CMSG_* of this platform; field order/sizes checked natively by gen.py (static_assert against the system headers). CBMC's C++ front end itself lays classes out without alignment padding, so offsets inside the object are not the native ones; the contracts only use positions relative to data.raw")
